@@ -399,7 +399,7 @@ def utf8(ctx, F):
         ctx.missing(r, err, cfg=F.key)
         return
     kinds = set()
-    for mode, rec in W["modes"].items():
+    for mode, rec in [(m_, r_) for m_, r0_ in W["modes"].items() for r_ in [r0_] + r0_.get("alts", [])]:
         for (s, e, kind, src, ln) in rec["writes"]:
             if kind.startswith("literal"):
                 # constant bytes: must be ASCII
@@ -642,7 +642,7 @@ def utf8_buffer_ok(F, b):
     W, err = layout.text_writer(F)
     if W is None:
         return False
-    for mode, rec in W["modes"].items():
+    for mode, rec in [(m_, r_) for m_, r0_ in W["modes"].items() for r_ in [r0_] + r0_.get("alts", [])]:
         if rec["unknown"]:
             return False
         for (s_, e_, kind, src, ln) in rec["writes"]:
